@@ -16,7 +16,7 @@ func init() {
 	sim.Register(&sim.Check{
 		ID: "C42", Title: "Replicating sharders are chosen deterministically", World: "consensus",
 		Gen: genC42, Exec: execC42,
-		Quick:    sim.Budget{Runs: 1600, WallS: 25},
+		Quick:    sim.Budget{Runs: 1200, WallS: 25},
 		Thorough: sim.Budget{Runs: 400000, WallS: 600},
 		LevelText: "seeded search: 2-5 independent real chain.Chain instances learn one seeded sharder set over a simulated network (per-instance permutation, " +
 			"verbatim duplicates, queries racing with late deliveries) and compute the replicators of seeded block hashes for seeded replicator counts (negative, 0, 1..n, >n); a clean batch is evidence, not proof",
@@ -247,5 +247,6 @@ func execC42(env *sim.Env, p *sim.Plan) *sim.Result {
 			}
 		}
 	}
+	miDumpTrace(tr)
 	return tr.Result(p.Seed)
 }
